@@ -129,7 +129,9 @@ class RoundTrip(Oracle):
                         "print/parse failed: %s result=%s" % (what, prt))
             if exact:
                 if dmp != base:
-                    if (po & 0xF0) == WD_EXPLICIT and dmp.replace(":ds", ":s") == base.replace(":ds", ":s"):
+                    # (a container that only holds state defaults loses its own default flag with them)
+                    nd = lambda x: x.replace(":ds", ":s").replace(":i:d;", ":i:;") if ":ds" in base else x
+                    if (po & 0xF0) == WD_EXPLICIT and nd(dmp) == nd(base):
                         tag = "wd-explicit-state-dflt"      # RFC 6243 explicit mode reports state defaults
                         k = self.report_known(tag)
                         if k:
@@ -286,10 +288,10 @@ class StdReaders(Oracle):
             try:
                 got = xml_tree(data)
             except xml.parsers.expat.ExpatError as e:
-                return (classify_xml(f), "printed XML is not well-formed: %s" % e)
+                return (None, "printed XML is not well-formed: %s%s" % (e, ws_hint(f)))
             d = xml_equal(exp, got)
             if d:
-                return (classify_xml(f), "expat reads a different document: " + d)
+                return (None, "expat reads a different document: " + d + ws_hint(f))
         expj = yanggen.to_json_obj(f)
         for k in (4, 6):
             if rc(r[k]) != 0:
@@ -328,15 +330,18 @@ def all_values(forest):
         yield from all_values(n.children)
 
 
-def classify_xml(forest):
-    """known deviation classes of the XML printer: raw CR in content, raw TAB/LF/CR in attribute values"""
+def ws_hint(forest):
+    """text appended to the detail of an XML deviation. Raw CR in content and raw TAB/LF/CR in attribute values were the
+    known findings xml-cr / xml-attr-ws until lyxml_dump_text() was fixed (6fdbff2, 47fa563: written as character
+    references now). They are no longer expected: a deviation is a plain violation (tag None) whatever the values hold;
+    the hint only says that the instance has such values, i.e. that one of the fixes may have regressed."""
     cr = any("\r" in v for v, _ in all_values(forest))
     attrws = any(isattr and any(ch in v for ch in "\t\n\r") for v, isattr in all_values(forest))
     if attrws:
-        return "xml-attr-ws"
+        return " [instance has TAB/LF/CR in a metadata value: regression of 47fa563 (xml-attr-ws)?]"
     if cr:
-        return "xml-cr"
-    return None
+        return " [instance has a CR in a value: regression of 6fdbff2 (xml-cr)?]"
+    return ""
 
 
 def canon_json(o):
